@@ -273,6 +273,18 @@ impl EventLoops {
     }
 }
 
+#[cfg(all(target_os = "linux", feature = "io_uring"))]
+impl EventLoops {
+    /// Cancel the `io_uring` operation the caller submitted with `token` and has stopped
+    /// waiting for. Its completion still arrives and still has to be taken.
+    ///
+    /// # Errors
+    /// if the cancel request could not be submitted.
+    pub fn cancel_io_uring(token: u64) -> std::io::Result<()> {
+        Self::event_loop().cancel_io_uring(token)
+    }
+}
+
 macro_rules! impl_io_uring {
     ( $syscall: ident($($arg: ident: $arg_type: ty),*) -> $result: ty ) => {
         #[cfg(all(target_os = "linux", feature = "io_uring"))]
